@@ -1,3 +1,10 @@
 /-- unfold a successful `Except` computation: split every branch, discard the failing ones -/
 macro "ok_cases " h:ident : tactic =>
   `(tactic| ((try dsimp only at $h:ident); repeat' (split at $h:ident); all_goals (first | (cases $h:ident; done) | skip)))
+
+/-- turn Boolean guards (`decide`, `&&`, `||`, `!`, `==`) into propositions that `omega` understands -/
+macro "bool_norm" loc:(Lean.Parser.Tactic.location)? : tactic =>
+  `(tactic| simp only [Bool.or_eq_true, Bool.and_eq_true, decide_eq_true_eq, not_or, not_and, Bool.not_eq_true',
+      Bool.not_eq_true, decide_eq_false_iff_not, bne_iff_ne, beq_iff_eq, Bool.or_eq_false_iff, Bool.and_eq_false_imp,
+      ne_eq, Bool.not_eq_false', Bool.not_eq_false, beq_eq_false_iff_ne, Bool.false_eq_true, Bool.true_eq_false,
+      not_true_eq_false, not_false_eq_true, Decidable.not_not] $[$loc]?)
